@@ -1016,6 +1016,27 @@ func (s *Server) handleDecline(req *dhcpv4.DHCPv4) {
 		if pool := s.poolMgr.GetPool(lease.PoolID); pool != nil {
 			pool.MarkUnavailable(declinedIP)
 		}
+
+		// Remove the declined binding from the fast path cache (as handleRelease
+		// does), otherwise the kernel keeps answering with the declined address
+		if s.loader != nil {
+			macU64 := ebpf.MACToUint64(mac)
+			if err := s.loader.RemoveSubscriber(macU64); err != nil {
+				s.logger.Warn("Failed to remove from fast path cache",
+					zap.String("mac", mac.String()),
+					zap.Error(err),
+				)
+			}
+			if (lease.STag > 0 || lease.CTag > 0) && s.loader.HasVLANSupport() {
+				s.loader.RemoveVLANSubscriber(lease.STag, lease.CTag)
+			}
+			if len(lease.CircuitID) > 0 {
+				s.loader.RemoveCircuitIDMapping(lease.CircuitID)
+				if s.loader.HasCircuitIDSubscriberSupport() {
+					s.loader.RemoveCircuitIDSubscriber(lease.CircuitID)
+				}
+			}
+		}
 	}
 }
 
